@@ -53,6 +53,16 @@ CLAIMS = {
         design_ref="DESIGN.md §3 C13",
         note="The two-sided timing claim at every reachable state is not decided; IGMP/MLD report timers are outside the claim as in the property. Trusted base as C17.",
         technique="static analysis: sibling-agreement (leaf-set) and pairing rules, finite-domain tables over rustc MIR"),
+    'C14': dict(
+        text="Writer tables and value shapes of RingBuffer.length / read_at (increase only behind a free-space guard, decrease behind a fill guard, read position only advanced modulo capacity or rewound by clear()/empty enqueue); three clamps of get_allocated/get_unallocated; PacketBuffer: sibling agreement of the two enqueue entry points (incl. empty-ring rewind), padding dropped before every dequeue/peek, declined dequeue consumes 0.",
+        design_ref="DESIGN.md §3 C14",
+        note="FIFO model equivalence over all operation sequences is not decided (value/history quantified). Trusted base as C17.",
+        technique="static analysis: who-may-write tables, origin-tree value shapes, guard must-pass-through, sibling agreement over rustc MIR"),
+    'C15': dict(
+        text="Effect-freedom on error paths (interprocedural, callee summaries): no store through self and no &mut-self call can precede an Err return in Assembler::add_contig_at, ::add and ::add_then_remove_front; TCP uses add_then_remove_front (the entry point that cannot refuse offset 0).",
+        design_ref="DESIGN.md §3 C15",
+        note="Exact union-of-ranges semantics and the exact refusal condition are not decided. Trusted base as C17.",
+        technique="static analysis: effect-freedom on Err paths (T10) over the rustc MIR CFG with callee summaries"),
 }
 
 NOT_YET = "structural rules for this property are not built yet in this revision; no static claim is made"
